@@ -2,3 +2,4 @@
    definitions regenerated from /repo do not translate or compile): the monitors still run, the rules do not. *)
 From LE Require Import Base Ev.
 Definition check_guards (tr : trace) : list (Z * Z) := [].
+Definition check_guards2 (tr : trace) : list (Z * Z) := [].
